@@ -721,18 +721,17 @@ def function(
         target_type=function_type,
         intermediate_repr=intermediate_repr,
     )
+    return_default = (intermediate_repr.get("returns") or {"return_type": {}})[
+        "return_type"
+    ].get("default")
     return_val = (
         Return(
-            value=ast.parse(
-                intermediate_repr["returns"]["return_type"]["default"].strip("`")
-            )
-            .body[0]
-            .value,
+            value=ast.parse(return_default.strip("`")).body[0].value
+            if isinstance(return_default, str)
+            else set_value(return_default),  # a plain constant (`return 5`), not source text
             expr=None,
         )
-        if (intermediate_repr.get("returns") or {"return_type": {}})["return_type"].get(
-            "default"
-        )
+        if return_default
         else None
     )
 
